@@ -307,9 +307,50 @@ Proof.
       rewrite map_map. apply map_ext. intros e. symmetry. apply Hg.
 Qed.
 
+(* ---------- the boolean check of the parsed tree (evaluated in the correspondence) is sound ---------- *)
+Lemma mem_path_In p l : mem_path p l = true <-> In p l.
+Proof.
+  unfold mem_path. rewrite existsb_exists. split.
+  - intros (q & Hq & E). destruct (path_dec p q) as [->|]; [exact Hq|discriminate].
+  - intros H. exists p. split; auto. destruct (path_dec p p) as [_|N]; [reflexivity|exfalso; apply N; reflexivity].
+Qed.
+
+Lemma wf_restb_sound ti p : forall rest seen, wf_restb ti p seen rest = true -> wf_rest ti p seen rest.
+Proof.
+  induction rest as [|[r i] rest IH]; intros seen H; [exact I|].
+  cbn [wf_restb] in H. apply andb_prop in H. destruct H as (H & H5).
+  apply andb_prop in H. destruct H as (H & H4). apply andb_prop in H. destruct H as (H & H3).
+  apply andb_prop in H. destruct H as (H1 & H2).
+  cbn [wf_rest]. repeat split.
+  - intros ->. discriminate H1.
+  - unfold no_hook in H2. destruct (hk i); [discriminate|reflexivity].
+  - destruct (oaddr_dec (par i) (Some (ti, p ++ removelast r))) as [E|]; [exact E|discriminate].
+  - apply mem_path_In. exact H4.
+  - apply IH. exact H5.
+Qed.
+
+Lemma nodupb_sound : forall l, nodupb l = true -> NoDup l.
+Proof.
+  induction l as [|x l IH]; intros H; [constructor|].
+  cbn [nodupb] in H. apply andb_prop in H. destruct H as (H1 & H2). constructor; auto.
+  intros Hin. apply mem_path_In in Hin. rewrite Hin in H1. discriminate H1.
+Qed.
+
+Lemma wf_treeb_sound ti t : wf_treeb ti t = true -> wf_tree ti t.
+Proof.
+  destruct t as [|[[|x q] i0] rest]; cbn [wf_treeb]; try discriminate. intros H.
+  apply andb_prop in H. destruct H as (H & H4). apply andb_prop in H. destruct H as (H & H3).
+  apply andb_prop in H. destruct H as (H1 & H2).
+  exists i0, rest. split; [reflexivity|]. split; [|split; [|split]].
+  - unfold no_hook in H1. destruct (hk i0); [discriminate|reflexivity].
+  - intros pa E. rewrite E in H2. apply Nat.ltb_lt. exact H2.
+  - apply wf_restb_sound. exact H3.
+  - apply nodupb_sound. exact H4.
+Qed.
+
 Lemma apply_op_wf w o : wf_world w -> wf_world (apply_op fixed_flags w o).
 Proof.
-  intros Hw. destruct o as [a|a k d|a k|a d]; cbn [apply_op].
+  intros Hw. destruct o as [a|a k d|a k|a d|a k ents]; cbn [apply_op].
   - destruct (deepcopy fixed_flags w a) as [w'|] eqn:E; auto. eapply deepcopy_wf; eauto.
   - destruct (is_some (get w a) && negb (is_some (get w (fst a, snd a ++ [k])))) eqn:C; auto.
     apply andb_prop in C. destruct C as (C1 & C2).
@@ -320,6 +361,9 @@ Proof.
     destruct a as [ti p]. cbn [fst snd] in *. eapply add_wf; eauto.
   - apply upd_tree_wf; auto. intros t _ Hwt. apply rm_wf. exact Hwt.
   - apply upd_tree_wf; auto. intros t _ Hwt. apply setdata_wf. exact Hwt.
+  - destruct (is_some (get w a)); auto. apply upd_tree_wf; auto. intros t _ Hwt. cbv zeta.
+    match goal with |- wf_tree _ (if wf_treeb ?i ?x then _ else _) => destruct (wf_treeb i x) eqn:E end; auto.
+    apply wf_treeb_sound. exact E.
 Qed.
 
 Lemma run_wf : forall ops w, wf_world w -> wf_world (run fixed_flags ops w).
@@ -350,12 +394,13 @@ Qed.
 
 Lemma apply_op_length fl w o : length w <= length (apply_op fl w o).
 Proof.
-  destruct o as [a|a k d|a k|a d]; cbn [apply_op].
+  destruct o as [a|a k d|a k|a d|a k ents]; cbn [apply_op].
   - destruct (deepcopy fl w a) eqn:E; auto. destruct (deepcopy_frame _ _ _ _ E) as (c & ->).
     rewrite app_length. lia.
   - destruct (_ && _); auto. rewrite upd_tree_length. auto.
   - rewrite upd_tree_length. auto.
   - rewrite upd_tree_length. auto.
+  - destruct (is_some (get w a)); auto. rewrite upd_tree_length. auto.
 Qed.
 
 Lemma apply_op_root_none fl w o ti : root_none w ti -> root_none (apply_op fl w o) ti.
@@ -367,13 +412,16 @@ Proof.
   { intros f (i1 & r1 & Ef & Hp1) tj. destruct (Nat.eq_dec ti tj) as [->|N].
     - exists i1, r1. rewrite upd_tree_same, Ht. cbn. rewrite Ef. auto.
     - exists i0, rest. rewrite upd_tree_other by auto. auto. }
-  destruct o as [a|a k d|a k|a d]; cbn [apply_op].
+  destruct o as [a|a k d|a k|a d|a k ents]; cbn [apply_op].
   - destruct (deepcopy fl w a) eqn:E; [|exists i0, rest; auto].
     destruct (deepcopy_frame _ _ _ _ E) as (c & ->). exists i0, rest.
     rewrite nth_error_app1 by auto. auto.
   - destruct (_ && _); [|exists i0, rest; auto]. apply Hother. cbn [app]. eauto.
   - apply Hother. cbn [filter fst]. rewrite strip_snoc_nil. cbn. eauto.
   - apply Hother. cbn [map fst snd]. destruct (path_dec [] (snd a)); cbn; eauto.
+  - destruct (is_some (get w a)); [|exists i0, rest; auto]. apply Hother. cbv zeta.
+    match goal with |- exists _ _, (if ?b then _ else _) = _ /\ _ => destruct b end; [|eauto].
+    cbn [filter fst app]. rewrite strip_snoc_nil. cbn [negb is_some app]. eauto.
 Qed.
 
 Lemma run_root_none fl : forall ops w ti, root_none w ti -> root_none (run fl ops w) ti.
@@ -396,12 +444,14 @@ Lemma apply_op_local fl w1 w2 o ti :
   nth_error w1 ti = nth_error w2 ti -> touches o ti ->
   nth_error (apply_op fl w1 o) ti = nth_error (apply_op fl w2 o) ti.
 Proof.
-  intros H Ht. destruct o as [a|[ta p] k d|[ta p] k|[ta p] d]; cbn [touches op_tree fst] in Ht; [contradiction| | |];
+  intros H Ht. destruct o as [a|[ta p] k d|[ta p] k|[ta p] d|[ta p] k ents]; cbn [touches op_tree fst] in Ht; [contradiction| | | |];
     subst ta; cbn [apply_op fst snd].
   - assert (G : forall q, get w1 (ti, q) = get w2 (ti, q)) by (intros q; apply get_same; exact H).
     rewrite !G. destruct (_ && _); auto. rewrite !upd_tree_same, H. reflexivity.
   - rewrite !upd_tree_same, H. reflexivity.
   - rewrite !upd_tree_same, H. reflexivity.
+  - assert (G : forall q, get w1 (ti, q) = get w2 (ti, q)) by (intros q; apply get_same; exact H).
+    rewrite !G. destruct (is_some (get w2 (ti, p))); auto. rewrite !upd_tree_same, H. reflexivity.
 Qed.
 
 Lemma run_project fl ti : forall ops w1 w2,
@@ -462,43 +512,3 @@ Proof.
   - rewrite Ht. apply spec_copy_iso.
 Qed.
 
-(* ---------- the boolean check of the parsed tree (evaluated in the correspondence) is sound ---------- *)
-Lemma mem_path_In p l : mem_path p l = true <-> In p l.
-Proof.
-  unfold mem_path. rewrite existsb_exists. split.
-  - intros (q & Hq & E). destruct (path_dec p q) as [->|]; [exact Hq|discriminate].
-  - intros H. exists p. split; auto. destruct (path_dec p p) as [_|N]; [reflexivity|exfalso; apply N; reflexivity].
-Qed.
-
-Lemma wf_restb_sound ti p : forall rest seen, wf_restb ti p seen rest = true -> wf_rest ti p seen rest.
-Proof.
-  induction rest as [|[r i] rest IH]; intros seen H; [exact I|].
-  cbn [wf_restb] in H. apply andb_prop in H. destruct H as (H & H5).
-  apply andb_prop in H. destruct H as (H & H4). apply andb_prop in H. destruct H as (H & H3).
-  apply andb_prop in H. destruct H as (H1 & H2).
-  cbn [wf_rest]. repeat split.
-  - intros ->. discriminate H1.
-  - unfold no_hook in H2. destruct (hk i); [discriminate|reflexivity].
-  - destruct (oaddr_dec (par i) (Some (ti, p ++ removelast r))) as [E|]; [exact E|discriminate].
-  - apply mem_path_In. exact H4.
-  - apply IH. exact H5.
-Qed.
-
-Lemma nodupb_sound : forall l, nodupb l = true -> NoDup l.
-Proof.
-  induction l as [|x l IH]; intros H; [constructor|].
-  cbn [nodupb] in H. apply andb_prop in H. destruct H as (H1 & H2). constructor; auto.
-  intros Hin. apply mem_path_In in Hin. rewrite Hin in H1. discriminate H1.
-Qed.
-
-Lemma wf_treeb_sound ti t : wf_treeb ti t = true -> wf_tree ti t.
-Proof.
-  destruct t as [|[[|x q] i0] rest]; cbn [wf_treeb]; try discriminate. intros H.
-  apply andb_prop in H. destruct H as (H & H4). apply andb_prop in H. destruct H as (H & H3).
-  apply andb_prop in H. destruct H as (H1 & H2).
-  exists i0, rest. split; [reflexivity|]. split; [|split; [|split]].
-  - unfold no_hook in H1. destruct (hk i0); [discriminate|reflexivity].
-  - intros pa E. rewrite E in H2. apply Nat.ltb_lt. exact H2.
-  - apply wf_restb_sound. exact H3.
-  - apply nodupb_sound. exact H4.
-Qed.
